@@ -45,7 +45,7 @@ def bounds(tier):
         "annotator_specs": "None; index subsets [0],[1],[0,1]; all boolean matrices", "candidate_specs": "None; all non-empty index subsets; "
         "feature rows of subsets (+ foreign row)", "batch_sizes": "1..min(pairs+1, 5)" if q else "1..pairs+1",
         "n_annotators_per_sample": [1, 2, [2], [1, 2]] if q else [1, 2, 3, [2], [1, 2], [2, 1, 1, 1, 1, 1, 1]],
-        "n_annotators_per_sample_note": "lists are per-rank preferences (the last entry is repeated); for them the per-sample count oracle is not applied", "deviation_bound": 1, "A_perf": ["[0.5,0.5] (ties)", "None (seeded random)"]}
+        "n_annotators_per_sample_note": "lists are per-rank preferences (the last entry is repeated); for them the per-sample count oracle is not applied", "deviation_bound": 1, "A_perf": ["[0.5,0.5] (ties)", "None (seeded random)", "[-3.0,0.5] (negative scores, gap > 1)"]}
 
 
 def subjects(tier):
@@ -333,7 +333,9 @@ def run_shard(spec):
             for nps in ([None] if is_iet else b["n_annotators_per_sample"]):
                 if isinstance(nps, list) and bs < 2:
                     continue  # with a single pair a per-rank preference list is the same as its first entry
-                for a_perf in ([None] if is_iet else ([0.5, 0.5], None) if (i % 3 == 0) else ([0.5, 0.5],)):
+                # annotator performances: ties, seeded random, and a negative-valued vector with a gap > 1 (log scores) that must be
+                # normalised into [0, 1) so that it never outweighs the sample ranking
+                for a_perf in ([None] if is_iet else ([0.5, 0.5], None) if (i % 3 == 0) else ([0.5, 0.5], [-3.0, 0.5]) if (i % 3 == 1) else ([0.5, 0.5],)):
                     run_case(acc, name, y, cand, annot, bs, nps, a_perf, b["deviation_bound"])
         if i % 97 == 0:
             acc.sample({"strategy": name, "y": y.tolist(), "candidates": cand if not isinstance(cand, tuple) else list(cand),
@@ -381,12 +383,13 @@ def check_order_transparency(acc, inner, tier):
             acc.case(key)
             saw = SingleAnnotatorWrapper(inner.make(0), random_state=0)
             kw = inner.query_kwargs(X)
-            o = run_query(saw, None, X, y, None, None, k, nps, [0.5, 0.5], T.Tape(), watch=False, inner=inner)
+            a_perf = [0.5, 0.5] if (nps == 1 or k % 2) else [-3.0, 0.5]
+            o = run_query(saw, None, X, y, None, None, k, nps, a_perf, T.Tape(), watch=False, inner=inner)
             acc.transitions += 1
             # reference: inner strategy on the aggregated labels, same candidates, same tape
             from skactiveml.utils import majority_vote
 
-            wit = {"wrapper": "SingleAnnotatorWrapper", "inner": inner.name, "X": X.tolist(), "y": y.tolist(), "batch_size": k, "n_annotators_per_sample": nps}
+            wit = {"wrapper": "SingleAnnotatorWrapper", "inner": inner.name, "X": X.tolist(), "y": y.tolist(), "batch_size": k, "n_annotators_per_sample": nps, "A_perf": a_perf}
             rep = {"what": "saw", "inner": inner.name, "pool": "line4"}
             if o[0] != "ok":
                 acc.violation("SingleAnnotatorWrapper", "wrapper_fails", "%s" % (o[1],), wit, {}, rep, k)
